@@ -4,6 +4,7 @@ package p2p
 
 import (
 	"net"
+	"time"
 
 	"github.com/canopy-network/canopy/lib"
 	"github.com/canopy-network/canopy/lib/crypto"
@@ -117,3 +118,43 @@ func (v *VerifStream) Drain() (delivered [][]byte) {
 
 // InboxCap is the capacity of the inbox this stream delivers into
 func (v *VerifStream) InboxCap() int { return cap(v.inbox) }
+
+// VerifSendStream is the send side of a stream on its own: the topic's send queue (of a chosen capacity) without a send service
+type VerifSendStream struct{ s *Stream }
+
+// VerifPacket is a packet taken from a send queue
+type VerifPacket struct {
+	Topic lib.Topic
+	Eof   bool
+	Bytes []byte
+}
+
+func VerifNewSendStream(topic lib.Topic, queueCap int) *VerifSendStream {
+	return &VerifSendStream{s: &Stream{topic: topic, msgAssembler: make([]byte, 0), sendQueue: make(chan *PacketWithTiming, queueCap), logger: lib.NewNullLogger()}}
+}
+
+// Send does what MultiConn.Send does with a message (split into chunks of at most `chunk` bytes, queueSends)
+func (v *VerifSendStream) Send(bz []byte, chunk int) bool {
+	chunks := split(bz, chunk)
+	var packets []*Packet
+	for i, c := range chunks {
+		packets = append(packets, &Packet{StreamId: v.s.topic, Eof: i == len(chunks)-1, Bytes: c})
+	}
+	return v.s.queueSends(packets, time.Now(), nil)
+}
+
+// Drain takes up to k packets from the send queue (what the send service would put on the wire next)
+func (v *VerifSendStream) Drain(k int) (out []VerifPacket) {
+	for i := 0; i < k; i++ {
+		select {
+		case p := <-v.s.sendQueue:
+			out = append(out, VerifPacket{Topic: p.packet.StreamId, Eof: p.packet.Eof, Bytes: p.packet.Bytes})
+		default:
+			return
+		}
+	}
+	return
+}
+
+// VerifQueueSendTimeout is how long a send waits for room in the queue
+const VerifQueueSendTimeout = queueSendTimeout
